@@ -11,7 +11,7 @@
         (an entry without '=' becomes key = entry, value = ""), again without those two keys
      4. LLBUILD_TASK_ID
      5. LLBUILD_CONTROL_FD when a control pipe exists
-   [build_env_unrepaired] is the construction before the repair a51183e (no filtering in 2 and 3): there a requested
+   [build_env_v0] is the construction before the repair a51183e (no filtering in 2 and 3): there a requested
    or inherited LLBUILD_TASK_ID / LLBUILD_CONTROL_FD won over the real one. *)
 From LLB Require Import Base.Bytes.
 Local Open Scope N_scope.
@@ -74,7 +74,7 @@ Definition build_env (build_id lane_id task_id : bytes) (requested : env) (inher
   end.
 
 (* before the repair: every requested / inherited entry was passed on *)
-Definition build_env_unrepaired (build_id lane_id task_id : bytes) (requested : env) (inherit : bool) (base : list bytes)
+Definition build_env_v0 (build_id lane_id task_id : bytes) (requested : env) (inherit : bool) (base : list bytes)
            (control_fd : option bytes) : env :=
   let e0 := set_if_missing (set_if_missing [] K_BUILD_ID build_id) K_LANE_ID lane_id in
   let e1 := set_all e0 requested in
